@@ -274,6 +274,20 @@ func ExecuteScenario(env *Env, sc *Scenario) (out *Outcome, err error) {
 		}
 		out.Violations = append(out.Violations, x.Viol...)
 		out.Records[v.Name] = x.Steps
+		if os.Getenv("VERIF_TRACE_STEPS") != "" { // debugging aid
+			for si, st := range x.Steps {
+				var ex []string
+				for p := range st.Executed {
+					ex = append(ex, p)
+				}
+				sort.Strings(ex)
+				fired := []string{}
+				if st.Resp != nil {
+					fired = st.Resp.Fired
+				}
+				fmt.Fprintf(os.Stderr, "trace %s step %d %s how=%s err=%q killed=%v executed=%v fired=%v presum=%q postsum=%s\n", v.Name, si, st.Op.Kind, st.Op.How, respErr(st.Resp), st.Killed, ex, fired, string(st.PreSum), st.Post["gengo.sum"])
+			}
+		}
 		if keep := os.Getenv("VERIF_KEEP_WORLDS"); keep != "" {
 			_ = CopyTree(vroot, filepath.Join(keep, sanitize(v.Name))) // debugging aid
 		}
